@@ -6,7 +6,10 @@ a destroyed object) - it knows nothing about expected behaviour.  All random
 choices come from random.Random(seed)."""
 import itertools, os, random, sys
 sys.path.insert(0, os.path.dirname(os.path.abspath(__file__)))
-from shapes import DERIVED, NSLOT, NMOCK, NSEQ, NOBJ, NMON, NTR, INF, SCOPED_IDS
+from shapes import DERIVED, NSLOT, NMOCK, NSEQ, NOBJ, NMON, NTR, INF, SCOPED_IDS, NONMOVABLE_IDS
+NM_ID = 3
+NM_SHAPES = sorted(NONMOVABLE_IDS - SCOPED_IDS)
+NM_SCOPED = sorted(NONMOVABLE_IDS & SCOPED_IDS)
 
 TERMS_SMALL = [(0, 0), (1, 0), (1, 1), (2, 0), (3, 2), (6, 1)]
 BOUNDS_ALL = [(l, h) for l in range(0, 4) for h in list(range(0, 4)) + [INF] if True]
@@ -31,7 +34,7 @@ class Profile:
     def __init__(self, name, shapes, weights, nmock=2, nseq=2, nslot=NSLOT, args=(0, 1, 2), terms=TERMS_SMALL,
                  bounds=((1, 1), (0, 1), (1, 2), (2, 2), (0, INF), (1, INF), (0, 0), (2, 3)), se_beh=(0,), seglen=(8, 30),
                  allow_bad_bounds=True, forbid_seq=False, fns=(1, 2, 3, 4), tracer_kinds=(1, 2), multi_mon=True,
-                 prelude=(), scoped_shapes=tuple(sorted(SCOPED_IDS))):
+                 prelude=(), scoped_shapes=tuple(sorted(SCOPED_IDS - NONMOVABLE_IDS)), use_nm=True):
         self.__dict__.update(locals())
 
     def gen_segment(self, rnd):
@@ -56,7 +59,7 @@ class Profile:
     def apply(self, k, L, rnd, add):
         P = self
         if k == 'mock':
-            free = [m for m in range(P.nmock) if m not in L.mocks]
+            free = [m for m in range(P.nmock) if m not in L.mocks] + ([NM_ID] if P.use_nm and NM_ID not in L.mocks else [])
             if free:
                 m = rnd.choice(free); L.mocks.add(m); add('mock %d' % m)
         elif k == 'seq':
@@ -68,12 +71,13 @@ class Profile:
             if not free or not L.mocks:
                 return
             s = rnd.choice(free)
-            cands = [sh for sh in P.shapes if DERIVED[sh]['nq'] <= len(L.seqs)]
+            m = rnd.choice(sorted(L.mocks))
+            pool = NM_SHAPES if m == NM_ID else P.shapes
+            cands = [sh for sh in pool if DERIVED[sh]['nq'] <= len(L.seqs)]
             if not cands:
                 return
             sh = rnd.choice(cands)
             d = DERIVED[sh]
-            m = rnd.choice(sorted(L.mocks))
             lo, hi = rnd.choice(P.bounds)
             if d['nq'] > 0 and not P.forbid_seq and d['rt']:
                 while hi == 0:
@@ -87,7 +91,8 @@ class Profile:
             nest = None
             if 3 in se:
                 # the effect calls a one-parameter function of some live mock (f(int) or v(int)) with an argument of the domain
-                nest = (rnd.choice(sorted(L.mocks)), rnd.choice([1, 1, 4]), rnd.choice(P.args), 0)
+                nm_ = rnd.choice(sorted(L.mocks))
+                nest = (nm_, 1 if nm_ == NM_ID else rnd.choice([1, 1, 4]), rnd.choice(P.args), 0)
             add(expect_line(s, sh, m, p, w, se, 100 * s + rnd.randint(0, 9), lo, hi, (q[0], q[1]), nest))
             if not (d['rt'] and lo > hi):
                 L.slots[s] = sh
@@ -97,9 +102,9 @@ class Profile:
             if not free or not L.mocks or not cands or len(L.scopes) >= 3:
                 return
             s = rnd.choice(free)
-            sh = rnd.choice(cands)
-            d = DERIVED[sh]
             m = rnd.choice(sorted(L.mocks))
+            sh = rnd.choice(NM_SCOPED if m == NM_ID else cands)
+            d = DERIVED[sh]
             lo, hi = rnd.choice([b for b in P.bounds if b[0] <= b[1] and b[1] > 0])
             q = rnd.sample(sorted(L.seqs), d['nq']) + [0, 0]
             p = (rnd.choice(P.terms), rnd.choice(P.terms))
@@ -130,7 +135,7 @@ class Profile:
             if not L.mocks:
                 return
             m = rnd.choice(sorted(L.mocks))
-            f = rnd.choice(P.fns)
+            f = 1 if m == NM_ID else rnd.choice(P.fns)
             add('call %d %d %d %d' % (m, f, rnd.choice(P.args), rnd.choice(P.args)))
         elif k == 'call_live':      # call a function that has a live expectation
             if not L.mocks or not L.slots:
@@ -138,6 +143,8 @@ class Profile:
             s = rnd.choice(sorted(L.slots))
             f = DERIVED[L.slots[s]]['fn']
             m = rnd.choice(sorted(L.mocks))
+            if m == NM_ID:
+                f = 1
             add('call %d %d %d %d' % (m, f, rnd.choice(P.args), rnd.choice(P.args)))
         elif k == 'release':
             named = [s for s in sorted(L.slots) if ('e', s) not in L.scopes]
@@ -148,8 +155,9 @@ class Profile:
                 m = rnd.choice(sorted(L.mocks)); L.mocks.discard(m); add('dmock %d' % m)
         elif k == 'mmock':
             free = [m for m in range(P.nmock) if m not in L.mocks]
-            if L.mocks and free:
-                m = rnd.choice(sorted(L.mocks)); m2 = rnd.choice(free); L.mocks.add(m2); add('mmock %d %d' % (m, m2))
+            movable = [m for m in sorted(L.mocks) if m != NM_ID]
+            if movable and free:
+                m = rnd.choice(movable); m2 = rnd.choice(free); L.mocks.add(m2); add('mmock %d %d' % (m, m2))
         elif k == 'dseq':
             if L.seqs:
                 q = rnd.choice(sorted(L.seqs)); L.seqs.discard(q); add('dseq %d' % q)
